@@ -70,6 +70,6 @@ Theorem C03_end_rules :
     Forall2 (fun d a => (a_mand d = true -> hasval a = true) /\ card_end (a_card d) (cnt a) = Ok tt)
             (firstn (length (arts s)) (args c)) (firstn (length (args c)) (arts s)) /\
     Forall (fun e => fst e <> KRequired) (pend s) /\
-    Forall2 gc_satisfied (firstn (length (gsts s)) (gcons c)) (firstn (length (gcons c)) (gsts s)).
+    Forall2 (gc_satisfied (arts s)) (firstn (length (gsts s)) (gcons c)) (firstn (length (gcons c)) (gsts s)).
 Proof. exact final_checks_ok. Qed.
 Print Assumptions C03_end_rules.
